@@ -554,9 +554,16 @@ int EGLPNUM_TYPENAME_ILLlib_chgbnd (
 		ILL_CLEANUP;
 	}
 
-	if (indx < 0 || indx > lp->O->nstruct)
+	if (indx < 0 || indx >= lp->O->nstruct)
 	{
 		QSlog("EGLPNUM_TYPENAME_ILLlib_chgbnd called with bad indx: %d", indx);
+		rval = 1;
+		ILL_CLEANUP;
+	}
+
+	if (lu != 'L' && lu != 'U' && lu != 'B')
+	{
+		QSlog("EGLPNUM_TYPENAME_ILLlib_chgbnd called with lu: %c", lu);
 		rval = 1;
 		ILL_CLEANUP;
 	}
@@ -602,6 +609,19 @@ int EGLPNUM_TYPENAME_ILLlib_chgbnds (
 	int rval = 0;
 	int i;
 
+	/* validate the whole list first: a rejected call changes nothing */
+	for (i = 0; lp && i < cnt; i++)
+	{
+		if (indx[i] < 0 || indx[i] >= lp->O->nstruct ||
+				(lu[i] != 'L' && lu[i] != 'U' && lu[i] != 'B'))
+		{
+			QSlog("EGLPNUM_TYPENAME_ILLlib_chgbnds called with bad entry %d: indx %d lu %c",
+									i, indx[i], lu[i]);
+			rval = 1;
+			ILL_CLEANUP;
+		}
+	}
+
 	for (i = 0; i < cnt; i++)
 	{
 		rval = EGLPNUM_TYPENAME_ILLlib_chgbnd (lp, indx[i], lu[i], bnd[i]);
@@ -630,7 +650,7 @@ int EGLPNUM_TYPENAME_ILLlib_getbnd (
 		ILL_CLEANUP;
 	}
 
-	if (indx < 0 || indx > lp->O->nstruct)
+	if (indx < 0 || indx >= lp->O->nstruct)
 	{
 		QSlog("EGLPNUM_TYPENAME_ILLlib_getbnd called with bad indx: %d", indx);
 		rval = 1;
@@ -682,7 +702,10 @@ int EGLPNUM_TYPENAME_ILLlib_getbnds_list (
 			{
 				QSlog("EGLPNUM_TYPENAME_ILLlib_getbnds_list collist[%d] = %d out "
 										"of range", j, collist[j]);
+				rval = 1; ILL_CLEANUP;
 			}
+		}
+		for (j = 0; j < num ; j++) {
 			col = qslp->structmap[collist[j]];
 			if (lower)
 				EGLPNUM_TYPENAME_EGlpNumCopy(lower[j], qslp->lower[col]);
